@@ -1,8 +1,22 @@
 // S4 poolsim — the real core.TxPool (rewritten tx_pool.go: every lock
 // acquisition, channel operation, select, spawn, ticker and pool-map iteration is
 // a scheduler decision) driven by 2..4 simulated clients against a stub chain.
-// Property C19.  One rapid tape = pool configuration + rounds of client op lists
-// + the schedule bytes; everything is drawn before the synctest bubble is entered.
+// Property C19.
+//
+// One rapid tape = pool configuration (limits 1..4, balances, gas limit, base fee,
+// journal, NoLocals) + rounds, each a list of operations per client + the schedule
+// bytes.  Everything is drawn before the synctest bubble is entered.
+//
+// A round: the clients of the round run concurrently under the scheduler until no
+// controlled goroutine is runnable (quiescent point: level-1 oracle).  A round may
+// then "settle" (one reorg tick, quiescence: level-2 oracle) and do a "full pass"
+// (an empty block + reorg tick: level-3 oracle).  See oracle_test.go for what each
+// level demands and why.  Deadlock is decided (settle()), panics are caught both
+// at the goroutine wrappers and in the pool's own "recovered and logged" paths.
+//
+// Files: sched_test.go (scheduler), chain_test.go (stub chain, transaction
+// universe), qi_test.go (Qi transactions), oracle_test.go (invariants),
+// model_test.go (sequential reference model of TestC19Seq), race_*_test.go.
 package poolsim
 
 import (
